@@ -130,7 +130,7 @@ let str_pk = function
   | PkArgType -> "argtype" | PkArgSlice -> "argslice" | PkRetType -> "rettype" | PkRetSlice -> "retslice"
   | PkNumOut -> "numout" | PkCallAssign -> "callassign" | PkCallArity -> "callarity"
   | PkNilType -> "niltype" | PkNonFunc -> "nonfunc" | PkElem -> "elem" | PkIndex -> "index"
-  | PkIsNil -> "isnil" | PkIllTyped -> "illtyped"
+  | PkIsNil -> "isnil" | PkIllTyped -> "illtyped" | PkConvert -> "convert"
 
 let str_setup = function
   | EKeyword -> "keyword" | ENotFunc -> "notfunc" | EParam i -> "param:" ^ string_of_z i
@@ -182,6 +182,7 @@ let handle = function
       (match run p_float p_prefix f_fmt funcs (List.rev funcs) awkdef (bytes_of_hex name) args with
        | OParseError PUndefined -> "parse-error undefined"
        | OParseError PTooMany -> "parse-error toomany"
+       | OParseError PNotFunc -> "parse-error notfunc"
        | OSetupError (n, e) -> "setup-error " ^ hex_of_bytes n ^ " " ^ str_setup e
        | OAwkFunc -> "awkfunc"
        | ORunError (id, recv) -> "run-error " ^ string_of_z id ^ " " ^ str_recv recv
